@@ -82,8 +82,12 @@ def _optimized_cache_from_source(typechecker_hash, /, path, debug_override=None)
     #    double-decorators.
     # Version 9: Now reporting the correct source code lines. (Important when used with
     #    a debugger.)
+    # The interpreter's own optimization level (`python -O`/`-OO`) stays part of the name,
+    # as it is for ordinary cache files: code compiled without `assert`s or docstrings
+    # must not be picked up by a run that wants them, nor the other way around.
+    level = sys.flags.optimize if sys.flags.optimize > 0 else ""
     return cache_from_source(
-        path, debug_override, optimization=f"jaxtyping9{typechecker_hash}"
+        path, debug_override, optimization=f"{level}jaxtyping9{typechecker_hash}"
     )
 
 
